@@ -154,20 +154,25 @@ Proof. exact strip_suffix_is_sub. Qed.
 (* sub_comments is re.sub(comment regex, " ", .): leftmost, non-overlapping, the match at each start unique *)
 Theorem C14_comment_regex_sub : forall s ctx, resub E comment_re [32] ctx s (sub_comments s 0).
 Proof. exact sub_comments_is_sub. Qed.
-(* partial: one match of the split regex is a non-empty white-space run; the greedy splitting function
-   re_split_ws itself is tied by the correspondence only *)
-Theorem C14_space_regex_match_partial : forall pre s post cp,
+(* one match of the split regex is a non-empty white-space run ... *)
+Theorem C14_space_regex_match : forall pre s post cp,
   matches E space_re pre s post cp <-> cp = [] /\ s <> [] /\ Forall (fun c => is_space c = true) s.
 Proof. exact space_re_match_partial. Qed.
-(* partial: one attempt of the tag regex at a line start is try_tag (both directions); the findall scan
-   scan_tags and dict() are tied by the correspondence only *)
-Theorem C14_tag_regex_attempt_partial :
+(* ... and re_split_ws is re.split(split regex, .): cut at the leftmost, longest (greedy) white-space runs *)
+Theorem C14_space_regex_split : forall s ctx, resplit E space_re ctx s (re_split_ws s).
+Proof. exact re_split_ws_is_split. Qed.
+(* one attempt of the tag regex at a line start is try_tag, both directions (so the match there is unique) ... *)
+Theorem C14_tag_regex_attempt :
   (forall text k v n, try_tag text = TagOk k v n ->
      exists s post, text = s ++ post /\ n = length s /\
                     forall pre, line_start pre -> matches E tag_re pre s post [(1%nat, k); (2%nat, v)]) /\
   (forall pre s post cp, matches E tag_re pre s post cp ->
      exists k v, cp = [(1%nat, k); (2%nat, v)] /\ try_tag (s ++ post) = TagOk k v (length s)).
 Proof. exact tag_attempt_partial. Qed.
+(* ... and scan_tags is re.findall(tag regex, head, re.M) wherever the model's \w table applies (scan_tags = Some):
+   leftmost, non-overlapping matches, each the only one at its start *)
+Theorem C14_tag_regex_findall : forall head l, scan_tags head true 0 = Some l -> refindall2 E tag_re [] head l.
+Proof. exact scan_tags_is_findall. Qed.
 
 (* ---- the same about format_move REGENERATED FROM THE SOURCE (gen/PtnGen.v, harness/py2coq.py against model/PySem.v; proofs/PtnGenEq.v); parse_move/PTN.parse are tied through the regex semantics above ---- *)
 From TV Require Import model.Tak model.PySem model.Ptn proofs.PtnProofs proofs.PtnGenEq.
